@@ -121,6 +121,9 @@ func Classify(err error) string {
 		return ""
 	}
 	msg := err.Error()
+	if os.Getenv("VERIFH_DEBUG") != "" {
+		fmt.Fprintln(os.Stderr, "error:", msg)
+	}
 	switch {
 	case errors.Is(err, syscall.ENOMEM):
 		return "enomem"
@@ -198,6 +201,19 @@ func MeasureMaxPayload() (int, error) {
 	return 0, errors.New("measuring maxPayloadSize: payloads up to 80 MiB are not split")
 }
 
+// DocumentedMaxPayload is ttrpc's message header plus maximum message length; used only
+// when the measurement fails (then the cases themselves will show what is wrong).
+const DocumentedMaxPayload = 10 + 4<<20
+
+func MaxPayloadOrDocumented() int {
+	mp, err := MeasureMaxPayload()
+	if err != nil || mp <= 0 {
+		fmt.Fprintf(os.Stderr, "verifh: %v; continuing with the documented value %d\n", err, DocumentedMaxPayload)
+		return DocumentedMaxPayload
+	}
+	return mp
+}
+
 // ---- crash isolation -------------------------------------------------------------------
 
 const workerEnv = "VERIFH_MUX_WORKER"
@@ -215,7 +231,18 @@ type Job struct {
 // is reported with the observation {"crashed": first panic line}.
 func RunIsolated(prop string, o *hx.Opts, w *lineio.Writer, jobs []Job, batch int, perJob time.Duration) error {
 	seq := 0
-	for i := 0; i < len(jobs); i += batch {
+	full := batch
+	batch = 4 // start small: a broken implementation shows in the first few cases
+	for i := 0; i < len(jobs); {
+		if i >= 4 {
+			batch = full
+		}
+		if badSeen >= maxBad {
+			// the implementation is evidently broken (cases hang or crash, each costing its
+			// full deadline): what has been recorded suffices as failing input
+			fmt.Fprintf(os.Stderr, "verifh %s: %d cases hung or crashed; skipping the remaining %d\n", prop, badSeen, len(jobs)-i)
+			return nil
+		}
 		j := i + batch
 		if j > len(jobs) {
 			j = len(jobs)
@@ -228,6 +255,7 @@ func RunIsolated(prop string, o *hx.Opts, w *lineio.Writer, jobs []Job, batch in
 					return err
 				}
 			}
+			i = j
 			continue
 		}
 		for k := i; k < j; k++ {
@@ -243,11 +271,18 @@ func RunIsolated(prop string, o *hx.Opts, w *lineio.Writer, jobs []Job, batch in
 			if err != nil && strings.Contains(err.Error(), "timeout") {
 				what = "blocked: worker did not finish"
 			}
+			badSeen++
 			w.Put(&lineio.Case{ID: jobs[k].ID, In: jobs[k].In, Obs: map[string]interface{}{"crashed": what}})
 		}
+		i = j
 	}
 	return nil
 }
+
+// circuit breaker: number of cases so far whose observation is a hang or a crash
+var badSeen int
+
+const maxBad = 4
 
 func putRaw(w *lineio.Writer, line []byte) error {
 	var c struct {
@@ -257,6 +292,25 @@ func putRaw(w *lineio.Writer, line []byte) error {
 	}
 	if err := json.Unmarshal(line, &c); err != nil {
 		return err
+	}
+	var st struct {
+		Status  string   `json:"status"`
+		Crashed string   `json:"crashed"`
+		Blocked []string `json:"blocked"`
+		Res     []struct {
+			R string `json:"r"`
+		} `json:"res"`
+	}
+	if json.Unmarshal(c.Obs, &st) == nil {
+		nb := 0
+		for _, r := range st.Res {
+			if r.R == "blocked" {
+				nb++
+			}
+		}
+		if st.Crashed != "" || strings.HasPrefix(st.Status, "blocked") || len(st.Blocked) > 0 || nb >= 3 {
+			badSeen++
+		}
 	}
 	return w.Put(&lineio.Case{ID: c.ID, In: c.In, Obs: c.Obs})
 }
